@@ -930,6 +930,101 @@ theorem content_disposition_contained (cfg : SafeCfg) (tbl : Nat → Str) (sha :
           have hsafe := safe_component cfg tbl sha f n hos ht hd (by simpa using hfe) hn
           exact Or.inr ⟨n, joinOne_clean _ n hsafe.1.2.2.2.1, hsafe⟩
 
+theorem dropWhile_nil_all (p : Nat → Bool) : ∀ l : Str, l.dropWhile p = [] → ∀ x ∈ l, p x = true := by
+  intro l
+  induction l with
+  | nil => intro _ x hx; simp at hx
+  | cons c t ih =>
+    intro h x hx
+    by_cases hc : p c = true
+    · rw [List.dropWhile_cons_of_pos hc] at h
+      simp only [List.mem_cons] at hx
+      rcases hx with rfl | hx
+      · exact hc
+      · exact ih h x hx
+    · rw [List.dropWhile_cons_of_neg hc] at h
+      cases h
+
+theorem go_last (name : Str) (h : 47 ∉ name) : ∀ (y acc : Str),
+    (splitOn1.go 47 (y ++ 47 :: name) acc).getLast? = some name := by
+  have hname : splitOn1.go 47 name [] = [name] := by
+    have := go_append name h [] []
+    simpa [splitOn1.go] using this
+  intro y
+  induction y with
+  | nil => intro acc; simp [splitOn1.go, hname]
+  | cons c t ih =>
+    intro acc
+    by_cases hc : c = 47
+    · subst hc
+      have := ih []
+      simp only [List.cons_append, splitOn1.go, beq_self_eq_true, if_true]
+      cases hg : splitOn1.go 47 (t ++ 47 :: name) [] with
+      | nil => rw [hg] at this; simp at this
+      | cons b l => rw [hg] at this; rw [List.getLast?_cons_cons]; exact this
+    · have hc' : (c == 47) = false := by simpa using hc
+      simp only [List.cons_append, splitOn1.go, hc']
+      exact ih (c :: acc)
+
+/-- `posixpath.dirname` of "directory part + one name": the directory part with its
+trailing slashes removed (kept when it consists of slashes only) -/
+theorem dirname_contained (pre name : Str) (hpre : pre = [] ∨ pre.getLast? = some 47) (h : 47 ∉ name) :
+    dirname (pre ++ name) = if pre.all (· == 47) then pre else rstripSlash pre := by
+  have hlast : (splitOn1 (pre ++ name) 47).getLast? = some name := by
+    rcases hpre with rfl | hp
+    · have := go_append name h [] []
+      simp [splitOn1, splitOn1.go] at this ⊢
+      simp [this]
+    · obtain ⟨y, rfl⟩ := List.getLast?_eq_some_iff.mp hp
+      have := go_last name h y []
+      simpa [splitOn1] using this
+  unfold dirname
+  simp [hlast]
+
+/-- **content_disposition_same_directory**: if the current file name is "directory part
++ one name" (as `get_filename_contained` guarantees), the renamed file lies in that
+same directory part (its trailing slashes collapsed to one) and is one safe component. -/
+theorem content_disposition_same_directory (cfg : SafeCfg) (tbl : Nat → Str) (sha : Str → Str)
+    (pre name : Str) (isHttp hasHeader : Bool) (m1 m2 : Option Str) (p : Str)
+    (hos : cfg.os ≠ .other) (ht : TableSane tbl) (hd : ShaSane sha)
+    (hpre : pre = [] ∨ pre.getLast? = some 47) (hname : 47 ∉ name)
+    (h : renameCD cfg tbl sha (pre ++ name) isHttp hasHeader m1 m2 = .ok p) :
+    p = pre ++ name ∨ ∃ comp,
+      p = (if pre.all (· == 47) then pre else rstripSlash pre ++ [47]) ++ comp ∧
+      SafeComponent cfg.noControl comp ∧ (cfg.os = .windows → ∀ c ∈ comp, c ∉ winChars) := by
+  rcases content_disposition_contained cfg tbl sha _ isHttp hasHeader m1 m2 p hos ht hd h with h | ⟨comp, hp, hs⟩
+  · exact Or.inl h
+  · refine Or.inr ⟨comp, ?_, hs⟩
+    rw [hp, dirname_contained pre name hpre hname]
+    split
+    · rename_i hall
+      -- a directory part made of slashes only (or empty) is continued as it is
+      unfold rootPrefix
+      split
+      · rfl
+      · rename_i hne
+        simp at hne
+        obtain ⟨h1, h2⟩ := hne
+        rcases hpre with rfl | hp
+        · exact absurd rfl h1
+        · exact absurd hp h2
+    · rename_i hall
+      unfold rootPrefix rstripSlash
+      have hdw : pre.reverse.dropWhile (· == 47) ≠ [] := by
+        intro hnil
+        have hnil := dropWhile_nil_all _ _ hnil
+        apply hall
+        simp only [List.all_eq_true]
+        intro x hx
+        exact hnil x (by simpa using hx)
+      have hhead := List.head?_dropWhile_not (· == 47) pre.reverse
+      cases hdl : pre.reverse.dropWhile (· == 47) with
+      | nil => exact absurd hdl hdw
+      | cons b l =>
+        rw [hdl] at hhead
+        simp at hhead
+        simp [hhead]
+
 /-- The writer's anti-clobber suffixes (".f", ".d", ".1", ".html", …): appending a
 non-empty suffix of printable non-slash characters that does not end in a dot to a
 safe component gives a safe component. -/
@@ -977,6 +1072,7 @@ example : getFilename ⟨⟨.unix, true, true, .none, 0⟩, lit "dl", lit "index
 example : getFilename ⟨⟨.unix, true, true, .none, 0⟩, lit "dl", lit "index.html", true, 0, false, true⟩
     (fun c => [c]) (fun _ => []) ⟨true, true⟩ false (lit "http://h:81/x/y?q=/")
     = .ok (lit "dl/h:81/x/y/y?q=%2F") := by decide
+example : dirname (lit "dl//h/a.txt") = lit "dl//h" := by decide
 example : HasScheme (lit "ftp://h/a") := ⟨102, lit "tp", lit "h/a", by decide, by decide, by decide⟩
 example : renameCD ⟨.unix, true, true, .none, 0⟩ (fun c => [c]) (fun _ => []) (lit "dl/h/a.txt") true true
     (some (lit "\"../../etc/passwd\"")) (some (lit "../../etc/passwd")) = .ok (lit "dl/h/..%2F..%2Fetc%2Fpasswd") := by decide
